@@ -1,1 +1,143 @@
-// shared engine-level reference helpers
+//! Shared engine-level reference helpers (DESIGN.md Appendix A.2 / A.3).
+
+use serde_json::json;
+
+use crate::obs::{pi, pu, Obs, Pos};
+use crate::refmodel::*;
+use crate::run::{pq_field_i, pq_field_u, pq_u, Ctx};
+use crate::types::*;
+use crate::world::World;
+
+#[derive(Clone, Copy, Debug, PartialEq, Eq, Hash)]
+pub enum OpenKind {
+    Fresh,
+    Increase,
+    Reduce,
+    Reverse,
+    DustReverse,
+}
+
+impl OpenKind {
+    pub fn s(&self) -> &'static str {
+        match self {
+            OpenKind::Fresh => "fresh",
+            OpenKind::Increase => "increase",
+            OpenKind::Reduce => "reduce",
+            OpenKind::Reverse => "reverse",
+            OpenKind::DustReverse => "dust_reverse",
+        }
+    }
+}
+
+pub struct OpenClass {
+    pub kind: OpenKind,
+    /// requested notional floor(m*l/D)
+    pub n: U,
+    /// quote the closing leg exchanges (reverse kinds) - from the pre-state OutputAmount query
+    pub q_close: U,
+    pub pos: Option<Pos>,
+}
+
+/// classify an OpenPosition from pre-state facts only (A.3)
+pub fn classify_open(ctx: &Ctx, w: &World) -> Option<OpenClass> {
+    let (v, side, margin, leverage) = match &ctx.step.op {
+        Op::Open { vamm, side, margin, leverage, .. } => (*vamm, *side, *margin, *leverage),
+        _ => return None,
+    };
+    let actor = w.resolve(&ctx.step.actor);
+    let n = mul_div(margin, leverage, w.d)?;
+    let pos = ctx.pre.position(v, &actor).cloned();
+    let kind = match &pos {
+        None => OpenKind::Fresh,
+        Some(p) if p.dir == side.dir() => {
+            if p.size == 0 {
+                OpenKind::Fresh
+            } else {
+                OpenKind::Increase
+            }
+        }
+        Some(p) => {
+            let cur = if p.size == 0 { 0 } else { pq_u(ctx.preq, "out_whole")? };
+            if cur > n {
+                OpenKind::Reduce
+            } else {
+                let r = n.abs_diff(cur);
+                if leverage == 0 || r / leverage == 0 {
+                    OpenKind::DustReverse
+                } else {
+                    OpenKind::Reverse
+                }
+            }
+        }
+    };
+    let q_close = match kind {
+        OpenKind::Reverse | OpenKind::DustReverse => {
+            if pos.as_ref().map(|p| p.size == 0).unwrap_or(true) {
+                0
+            } else {
+                pq_u(ctx.preq, "out_whole")?
+            }
+        }
+        _ => 0,
+    };
+    Some(OpenClass { kind, n, q_close, pos })
+}
+
+/// funding owed by the (vamm, trader) position in `obs`
+pub fn owed(obs: &Obs, v: usize, who: &str, d: U) -> Option<i128> {
+    let p = obs.position(v, who)?;
+    funding_owed(obs.vamms.get(v)?.cum, p.checkpoint, p.size, d)
+}
+
+pub struct PnlPair {
+    pub spot_n: U,
+    pub spot_pnl: i128,
+    pub twap_n: U,
+    pub twap_pnl: i128,
+}
+
+impl PnlPair {
+    /// the PnL with the smaller magnitude (tie: spot) and its notional
+    pub fn binding(&self) -> (&'static str, U, i128) {
+        if self.spot_pnl.unsigned_abs() > self.twap_pnl.unsigned_abs() {
+            ("twap", self.twap_n, self.twap_pnl)
+        } else {
+            ("spot", self.spot_n, self.spot_pnl)
+        }
+    }
+}
+
+/// spot and TWAP notional / PnL of a position, queried now
+pub fn pnl_pair_now(w: &World, v: usize, who: &str) -> Option<PnlPair> {
+    let va = w.addrs.vamms.get(v)?;
+    let s = w.q(&w.addrs.engine, json!({"unrealized_pnl": {"vamm": va, "trader": who, "calc_option": "spot_price"}})).ok()?;
+    let t = w.q(&w.addrs.engine, json!({"unrealized_pnl": {"vamm": va, "trader": who, "calc_option": "twap"}})).ok()?;
+    Some(PnlPair { spot_n: pu(&s["position_notional"]), spot_pnl: pi(&s["unrealized_pnl"]), twap_n: pu(&t["position_notional"]), twap_pnl: pi(&t["unrealized_pnl"]) })
+}
+
+pub fn pnl_pair_pre(ctx: &Ctx) -> Option<PnlPair> {
+    Some(PnlPair {
+        spot_n: pq_field_u(ctx.preq, "pnl_spot", "position_notional")?,
+        spot_pnl: pq_field_i(ctx.preq, "pnl_spot", "unrealized_pnl")?,
+        twap_n: pq_field_u(ctx.preq, "pnl_twap", "position_notional")?,
+        twap_pnl: pq_field_i(ctx.preq, "pnl_twap", "unrealized_pnl")?,
+    })
+}
+
+/// quote reserve movement of vAMM v in this step
+pub fn quote_moved(ctx: &Ctx, v: usize) -> U {
+    ctx.pre.vamms[v].q.abs_diff(ctx.post.vamms[v].q)
+}
+pub fn base_moved(ctx: &Ctx, v: usize) -> U {
+    ctx.pre.vamms[v].b.abs_diff(ctx.post.vamms[v].b)
+}
+
+pub fn sign(x: i128) -> &'static str {
+    if x > 0 {
+        "pos"
+    } else if x < 0 {
+        "neg"
+    } else {
+        "zero"
+    }
+}
